@@ -37,7 +37,8 @@ def outcome(text):
     logging.disable(logging.NOTSET)
 
 
-PAIR_KEYS = ["A-B", "A - B", "B-A", "B -A", "A-B ", "A-\tB", "A-C", "A-A", "A - A", "B-B", "A-\xa0B", "A\x0b-B", "B-\u2009A"]
+# (species labels are case sensitive: a and A are two species, a-A and A-a one pair)
+PAIR_KEYS = ["A-B", "A - B", "B-A", "B -A", "A-B ", "A-\tB", "A-C", "A-A", "A - A", "B-B", "A-\xa0B", "A\x0b-B", "B-\u2009A", "a-A", "A-a", "a-a", "b-A"]
 
 
 def pair_same(k1, k2):
@@ -55,7 +56,7 @@ def _pair_ok(k1, k2):
 
 def pair_keys(k1: int, k2: int) -> bool:
   """
-  pre: 0 <= k1 < 13 and 0 <= k2 < 13
+  pre: 0 <= k1 < 17 and 0 <= k2 < 17
   post: _
   """
   # a pair may be defined once, in either species order, however the key is spaced
